@@ -27,6 +27,7 @@ import (
 	"tkestack.io/kvass/pkg/utils/types"
 
 	"sync"
+	"sync/atomic"
 	"time"
 
 	parser "github.com/VictoriaMetrics/VictoriaMetrics/lib/protoparser/prometheus"
@@ -48,6 +49,8 @@ var (
 )
 
 type exploringTarget struct {
+	// gone is set (atomically) once the target is dropped from the table
+	gone      int32
 	exploring bool
 	job       string
 	target    *target.Target
@@ -117,6 +120,7 @@ func (e *Explore) ApplyConfig(cfg *prom.ConfigInfo) error {
 		if types.FindString(v.job, jobs...) {
 			newTargets[hash] = v
 		} else {
+			atomic.StoreInt32(&v.gone, 1)
 			deletedJobs[v.job] = struct{}{}
 		}
 	}
@@ -151,6 +155,11 @@ func (e *Explore) UpdateTargets(targets map[string][]*discovery.SDTargets) {
 			}
 		}
 	}
+	for hash, old := range e.targets {
+		if all[hash] != old {
+			atomic.StoreInt32(&old.gone, 1)
+		}
+	}
 	e.targets = all
 }
 
@@ -172,11 +181,10 @@ func (e *Explore) Run(ctx context.Context, con int) error {
 					tar := temp
 					hash := tar.target.Hash
 					// the target may have left discovery (or have been discovered again as a
-					// new target) while it was queued: only the current one is probed
-					e.targetsLock.Lock()
-					current := e.targets[hash] == tar
-					e.targetsLock.Unlock()
-					if !current {
+					// new target) while it was queued: only the current one is probed.
+					// The table lock must not be taken here: Get and the retry below send to the
+					// queue while holding it, and only the workers drain the queue.
+					if atomic.LoadInt32(&tar.gone) != 0 {
 						continue
 					}
 					err := e.exploreOnce(ctx, tar)
